@@ -83,4 +83,45 @@ TEXTS.update({
         "technique": "Lean 4 proof (inductive invariants) + behavioural conformance with gated readiness under testing/synctest",
     },
 })
+TEXTS.update({
+    "C05": {
+        "text": "Lean theorems over the small-step pipeline model (tree of bounded queues and publishers, any shape/depth, subscriptions attached at any moment), "
+                "for every interleaving: per stage, taken + buffered = what the parent forwarded since attachment (while its buffer never overflowed); end to end, "
+                "what reached a node is one contiguous window of the published sequence (no duplicate, gap or reordering; same relative order for all); late "
+                "subscribers get exactly the suffix; and along a well-formed stream the cache is never older than a received upsert. Tie: real trees under synctest, "
+                "every subscriber's drained sequence against the published one.",
+        "design_ref": "DESIGN.md §7 C05",
+        "note": "Trusted: Lean kernel; Pipe model (inch + non-blocking send collapsed into one offer; one forward step hands the event to all children: "
+                "modelling assumptions stated in Pipe.lean); interleavings of the real goroutines are sampled.",
+        "technique": "Lean 4 proof (inductive invariant of an interleaving transition system over arbitrary trees) + behavioural conformance under testing/synctest",
+    },
+    "C10": {
+        "text": "Lean theorems on the pipeline model: a publisher's forward step is enabled iff its own buffer is non-empty (independent of its children); removing all "
+                "reads of any consumer from any run leaves a run in which the published sequence and every other node are identical (non-interference, hence C05 "
+                "for healthy subscribers); what a stalled consumer holds is an in-order subsequence of what was forwarded to it, and exactly the first cap events if it "
+                "never read. Tie: stalled subscribers / filtered subscribers / blocking monitor handlers under streams several times EventBufsiz on the real code.",
+        "design_ref": "DESIGN.md §7 C10",
+        "note": "Trusted as for C05. Watcher/session buffers (watcher.go, watch_session.go) are exercised by the controller engine, not by these theorems.",
+        "technique": "Lean 4 proof (non-interference by simulation, subsequence invariants) + behavioural conformance with stalled consumers under testing/synctest",
+    },
+    "C11": {
+        "text": "Lean theorems on the lifecycle cascade (any tree, any set of Close calls at any moments, every schedule of the stop/finish rules): a component stops only if "
+                "it or a component it is fed by was closed (never up or sideways; survivors untouched); in every terminal state everything under a closed component is done; "
+                "every internal step decreases a measure bounded by twice the number of components. Tie: Done()/Events()-closed of every node of real trees after every "
+                "close, against the closed-subtree prediction, with traffic continuing through the survivors.",
+        "design_ref": "DESIGN.md §7 C11",
+        "note": "Trusted: Lean kernel; the cascade rules (Life.lean) are read off the code by hand; per-component responsiveness (each loop returns to its select) is "
+                "exhibited by the harness (synctest reports goroutines that never finish), not proved. 'Eventually' = next quiescent point in virtual time.",
+        "technique": "Lean 4 proof (safety invariant, terminal-state completeness, termination measure) + behavioural conformance under testing/synctest",
+    },
+    "C16": {
+        "text": "Lean theorems on the monitor machine for every label sequence (event sequences, readiness, Close at any moment): the callback log is empty or "
+                "OnInitialize(L) followed by exactly one callback per received event of matching kind and object in order; OnInitialize at most once and first; no step is "
+                "enabled after done; no callback at all if never ready; at most one callback per step. Tie: recorded callback logs of real monitors (blocking handlers, "
+                "Close at every point) against the model.",
+        "design_ref": "DESIGN.md §7 C16",
+        "note": "Trusted: Lean kernel; Mon model; that callbacks run only in the monitor goroutine is checked at run time by an overlap counter in the harness handler.",
+        "technique": "Lean 4 proof (shape invariant of the monitor state machine) + behavioural conformance under testing/synctest",
+    },
+})
 NOT_BUILT = {}
